@@ -255,7 +255,7 @@ def volumeIter (g : Gen σ α) (m : SimModel α) (vm : VolModel α) (times : Lis
   let Lambda := arraySum a
   let Tcur := times.getD s.idx 0
   let (proposed, fired, rstep, toQ, gs, log1) :=
-    if feq Lambda 0 then (Tcur, false, true, false, s.g, s.log)
+    if feq Lambda 0 then (Tcur, false, false, false, s.g, s.log)
     else
       let (u, gs) := g s.g
       (s.t + (-1 / Lambda * Transc.log u), true, false, false, gs, Event.wait u :: s.log)
@@ -296,7 +296,7 @@ def delayVolumeIter (g : Gen σ α) (m : SimModel α) (vm : VolModel α) (times 
   let Lambda := arraySum a
   let Tcur := times.getD s.idx 0
   let (proposed, rstep, gs, log1) :=
-    if feq Lambda 0 then (Tcur, true, s.g, s.log)
+    if feq Lambda 0 then (Tcur, false, s.g, s.log)
     else
       let (u, gs) := g s.g
       (s.t + (-1 / Lambda * Transc.log u), false, gs, Event.wait u :: s.log)
